@@ -154,6 +154,23 @@ def build(tier="quick", seed=0):
 
     add("C01.template[widths 0, 1, 3]", th_widths, lambda w: {"call": "c01_sequence", "args": {"x": w.get("x", 0)}}, wit=lambda m_, p: {"x": model_value(m_, x)})
 
+    # ---- the comparison configuration (ignored fields) is about == and hash only: it must not leak into what is written
+    def th_ignore_scope():
+        A = it.call(RD, ["c01/a", [("varint", "n"), ("string", "s")]], {})
+        N = it.call(RD, ["c01/nest", [("record", "r")]], {})
+        it.assume(z3.InRe(sv, ENCODABLE))
+        rs = [it.call(A, [], {"n": SInt(x), "s": SStr(sv)}), it.call(N, [], {"r": it.call(A, [], {"n": SInt(y), "s": "in"})}), it.call(GR, ["c01/grp", [it.call(A, [], {"n": SInt(y), "s": "g"})]], {})]
+        before = [deep_obs(it, r) for r in rs]
+        saved = base.g["IGNORE_FIELDS_FOR_COMPARISON"]
+        it.call(base.g["set_ignored_fields_for_comparison"], [["_generated"]], {})
+        try:
+            res = roundtrip(rs)
+        finally:
+            base.g["IGNORE_FIELDS_FOR_COMPARISON"] = saved
+        return before, res
+
+    add("C01.roundtrip[written and read while fields are ignored for comparison]", th_ignore_scope, lambda w: {"call": "c01_ignore_scope", "args": {"x": w.get("x", 0), "s": w.get("s", "")}}, wit=lambda m_, p: {"x": model_value(m_, x), "s": model_value(m_, sv)})
+
     # ---- sequences, nested, grouped
     def th_sequence():
         A = it.call(RD, ["c01/a", [("varint", "n")]], {})
